@@ -253,7 +253,9 @@ func driveC01(o opts) error {
 						TOp{Kind: "insert", Table: "Q", UUID: qu, Row: map[string]val.Val{"name": val.VA(gen.AtomN('s', i))}},
 						TOp{Kind: "insert", Table: "C", UUID: cu, Row: map[string]val.Val{"k": val.VA(gen.AtomN('s', i+1)), "friend": val.VSome(val.Uuid(qu))}},
 						TOp{Kind: "insert", Table: "P", UUID: tg.fresh(), Row: map[string]val.Val{"name": val.VA(gen.AtomN('s', i)), "kids": val.VS(val.Uuid(cu)), "w1": val.VS(val.Uuid(qu)),
-							"m1": {K: 'm', Map: [][2]val.Atom{{gen.AtomN('s', i), gen.AtomN('s', i+2)}}}}})
+							"m1":  {K: 'm', Map: [][2]val.Atom{{gen.AtomN('s', i), gen.AtomN('s', i+2)}}},
+							"ims": val.VS(gen.AtomN('s', i), gen.AtomN('s', i+1), gen.AtomN('s', i+2)),
+							"imm": {K: 'm', Map: [][2]val.Atom{{gen.AtomN('s', i), gen.AtomN('s', i+1)}, {gen.AtomN('s', i+3), gen.AtomN('s', i)}}}}})
 				}
 			}
 			viaClient := g.Chance(0.3) && pendingRelease == nil
